@@ -72,6 +72,10 @@ checks = {
    "150 000 (quick) / 6 000 000 (thorough) program texts — random bytes, token soups from the parser's own keyword table, seeds mined at run time from the manual, parser_test.go and testdata, outputs of the C03/C05/C14/C15 generators, hostile string/identifier literals and unary-sign chains, all mutated at byte, token and slice level — are parsed in the four quoting/prepared modes. Online monitors: no panic, no hang (per-case watchdog, journalled input), syntax-error positions inside the input; every value expression of every tree that parsed is printed, re-parsed, printed again (idempotence) and, when closed, evaluated in both forms (same value).",
    "Seeded deterministic mutation, no coverage feedback. Lines are counted with CRLF, LF and lone CR as breaks (as csvq's scanner does).",
    "fuzzing with online monitors (totality, error-position, print/parse round-trip and value-preservation oracles)"),
+ "C19": ("exploration", "§5 C19",
+   "Three fuzzing workloads with online monitors. Loader fuzz (in-process, journalled inputs, worker sub-processes): mutated and random byte strings x format function x encoding x no_header x without_null x ALLOW_UNEVEN_FIELDS x JSON query; oracle: documented error or rectangular table. Program fuzz (in-process + sampled through the real binary): every built-in, aggregate and analytic function (tables enumerated at run time) and LIMIT/OFFSET/PERCENT/WITH TIES/frame clauses with boundary arguments, deep nesting, recursion limits. File-system states through the real binary: missing/unreadable/read-only files and directories (child run as uid 65534), directory in place of a file, removed working directory, --repository/--out pointing nowhere, ENOSPC/EIO injected into writes with strace, invalid option values. Violations: Fatal Error / panic / runtime dump, undocumented exit status, death by signal, hang (watchdog), non-rectangular table.",
+   "Error texts are not judged, only exit status and internal-failure markers. A watchdog hang is reported with the worker's goroutine dump.",
+   "fuzzing and fault injection (strace errno injection, permission states) with online monitors"),
 }
 order = ["C%02d" % i for i in range(1, 21)]
 na_reason = "check not built yet in this session (work in progress; see DESIGN.md)"
